@@ -57,6 +57,9 @@ let parse_steps hd s : step list =
     | 'A' -> SAnnounce hd.(int_of_n (n_of_hex arg))
     | 'K' -> SKnown (n_of_hex arg)
     | 'F' -> SFinal (n_of_hex arg)
+    | 'M' -> (match split '.' arg with
+        | [who; i; best] -> SAnnounceMsg (n_of_hex who, hd.(int_of_n (n_of_hex i)), n_of_hex best)
+        | _ -> fail "bad announce %s" st)
     | 'P' -> SProcess (parse_results hd arg)
     | _ -> fail "bad step %s" st) (split '|' s)
 
@@ -71,16 +74,23 @@ let acc_str bad rs =
   | Some l -> String.concat "" (List.map (fun b -> if b then "1" else "0") l)
   | None -> "!"
 
+let q_str = function QAncestors h -> name_of h | QBody h -> "~" ^ name_of h
+let inc_str (st : pstate) = join "," (List.sort compare (List.map (fun b -> name_of b.d_hash) st.p_un.u_incomplete))
+let reps_str l = join "," (List.map (fun (w, c) -> hex_of_n w ^ "." ^ hex_of_n c) l)
+
+let render_announce (r : presult) =
+  String.concat ";" [ "m"; reps_str r.pr_reps; inc_str r.pr_state; join "," (List.map q_str r.pr_state.p_queue) ]
+
 let render_process bad rs (r : presult) =
   let st = r.pr_state in
   String.concat ";" [
     (if r.pr_error then "err" else "ok");
     join "," (List.map ev_str r.pr_events);
-    join "," (List.map (fun (w, c) -> hex_of_n w ^ "." ^ hex_of_n c) r.pr_reps);
+    reps_str r.pr_reps;
     join "," (List.map hex_of_n r.pr_bans);
-    join "," (List.sort compare (List.map (fun b -> name_of b.d_hash) st.p_un.u_incomplete));
+    inc_str st;
     join "+" (List.map (fun f -> join "." (List.map (fun b -> name_of b.d_hash) f)) st.p_un.u_disjoint);
-    join "," (List.map name_of st.p_queue);
+    join "," (List.map q_str st.p_queue);
     acc_str bad rs ]
 
 (* ---- parsing the observation of one Process step: events and accept decisions *)
@@ -104,6 +114,7 @@ let check inp obs =
       | s :: sr, o :: orr ->
         (match s, o with
          | SProcess rs, Some r -> render_process badl rs r
+         | SAnnounceMsg _, Some r -> render_announce r
          | _, _ -> ".") :: render sr orr
       | s :: _, [] ->
         if panicked then (match s with
@@ -114,7 +125,9 @@ let check inp obs =
     (* property predicate on the observables *)
     let obs_steps = split '|' obs in
     let obs_panic = List.exists (fun o -> String.length o >= 5 && String.sub o 0 5 = "panic") obs_steps in
-    let proc_obs = List.filter (fun o -> o <> ".") obs_steps in
+    let is_ann o = String.length o >= 2 && String.sub o 0 2 = "m;" in
+    let proc_obs = List.filter (fun o -> o <> "." && not (is_ann o)) obs_steps in
+    let ann_obs = List.filter is_ann obs_steps in
     let parsed = List.map (fun o -> match split ';' o with
       | [_; ev; _; _; _; _; _; acc] -> (parse_events ev, parse_acc acc)
       | [_; ev; acc] -> (parse_events ev, parse_acc acc)
@@ -165,7 +178,31 @@ let check inp obs =
       (if any_reject then "has-forged-or-unlinked" else "");
       (if List.exists (fun o -> match split ';' o with
            | [_; _; _; _; _; d; _; _] -> d <> "-" | _ -> false) proc_obs then "disjoint-kept" else "");
-      (if List.exists (fun s -> match s with SAnnounce _ -> true | _ -> false) stepl then "announce" else "") ]) in
+      (if List.exists (fun s -> match s with SAnnounce _ -> true | _ -> false) stepl then "announce" else "");
+      (if ann_obs <> [] then "announce-msg" else "");
+      (* the branches of OnBlockAnnounce, from the observation *)
+      String.concat "," (List.sort_uniq compare (List.concat (List.map (fun o ->
+        match split ';' o with
+        | [_; rep; _; _] ->
+          let code = (match split '.' rep with [_; c] -> c | _ -> rep) in
+          [ (match code with "4" -> "ann-bad" | "5" -> "ann-not-relevant" | "6" -> "ann-gossip-ok"
+                           | "-" -> "ann-far" | _ -> "ann-other") ]
+        | _ -> []) ann_obs)));
+      (* the verdicts of validateResults (model) *)
+      String.concat "," (List.sort_uniq compare (List.concat (List.map (fun s -> match s with
+        | SProcess rs -> List.map (fun r ->
+            let resp = if r.r_req.q_dir = dir_desc then List.rev r.r_resp else r.r_resp in
+            match classify fixed fixed fixed badl r with
+            | VSkip -> if not r.r_completed then "v-not-completed" else if resp = [] then "v-empty" else "v-nil-body"
+            | VRep c -> (match int_of_n c with
+                | 1 -> if req_field r.r_req f_header && has_nil_header resp then "v-nil-header" else "v-not-a-chain"
+                | 3 -> "v-hash-mismatch" | _ -> "v-rep-other")
+            | VBan -> "v-bad-block"
+            | VAccept _ -> if req_field r.r_req f_header then "v-accept-headers" else "v-accept-bodies"
+            | VPanic -> "v-panic") rs
+        | _ -> []) stepl)));
+      (if List.exists (fun o -> match split ';' o with
+           | [_; _; _; _; _; _; q; _] -> q <> "-" | _ -> false) proc_obs then "request-queued" else "") ]) in
     { prop_ok = prop; model_eq = (m = obs); nontrivial = nimports > 0; finding = "-"; tags;
       detail = if prop && m = obs then "" else
           Printf.sprintf "%s model=%s" (if prop then "" else if obs_panic then "Process panicked"
@@ -208,6 +245,7 @@ let cstep = function
   | SKnown h -> "SKnown " ^ cn h
   | SFinal n -> "SFinal " ^ cn n
   | SProcess rs -> "SProcess " ^ clist cres rs
+  | SAnnounceMsg (w, h, b) -> "SAnnounceMsg " ^ cn w ^ " " ^ chdr h ^ " " ^ cn b
 let ev_code = function
   | EImport s -> (ni 0, s) | ESkip s -> (ni 1, s) | EOrphan s -> (ni 2, s) | EDup s -> (ni 3, s)
   | ENothing s -> (ni 4, s) | EFinal s -> (ni 5, s)
@@ -219,7 +257,6 @@ let coq inp obs =
       let hd = parse_headers hdrs in
       let badl = if bad = "-" then [] else List.map n_of_hex (split ',' bad) in
       let stepl = parse_steps hd steps in
-      let names s = if s = "-" then [] else List.map hash_of_name (split ',' s) in
       let pobs o = match split ';' o with
         | [status; ev; reps; bans; _; dis; q; acc] when status <> "panic" && acc <> "!" ->
           let reps = if reps = "-" then [] else List.map (fun e -> match split '.' e with
@@ -230,9 +267,13 @@ let coq inp obs =
           Printf.sprintf "mkpobs %s %s %s %s %s %s %s" (cbool (status = "err"))
             (clist cpair (List.map ev_code (parse_events ev))) (clist cpair reps)
             (clist cn (if bans = "-" then [] else List.map n_of_hex (split ',' bans)))
-            (clist (clist cn) dis) (clist cn (names q)) (clist cbool (parse_acc acc))
+            (clist (clist cn) dis)
+            (clist (fun e -> if e.[0] = '~' then cpair (ni 1, hash_of_name (String.sub e 1 (String.length e - 1)))
+                             else cpair (ni 0, hash_of_name e)) (if q = "-" then [] else split ',' q))
+            (clist cbool (parse_acc acc))
         | _ -> raise Exit in
-      let exp = List.map pobs (List.filter (fun o -> o <> ".") (split '|' obs)) in
+      let exp = List.map pobs (List.filter (fun o -> o <> "." && not (String.length o >= 2 && String.sub o 0 2 = "m;"))
+                                 (split '|' obs)) in
       Some (Printf.sprintf "vm_history %s %s %s" (clist cn badl) (clist cstep stepl)
               ("[" ^ String.concat "; " exp ^ "]"))
     | ["imp"; hdrs; known; fin; blocks] ->
